@@ -2,13 +2,15 @@ module verifh
 
 go 1.21.6
 
-require github.com/evolbioinfo/goalign v0.0.0
+require (
+	github.com/evolbioinfo/goalign v0.0.0
+	gonum.org/v1/gonum v0.9.3
+)
 
 require (
 	github.com/armon/go-radix v1.0.0 // indirect
 	github.com/ulikunitz/xz v0.5.10 // indirect
 	golang.org/x/exp v0.0.0-20200224162631-6cc2880d07d6 // indirect
-	gonum.org/v1/gonum v0.9.3 // indirect
 )
 
 replace github.com/evolbioinfo/goalign => /repo
